@@ -332,7 +332,10 @@ def grammar_rules(chk, repo):
                     t = norm(flow.expand(test))
                     if pol and "is None" in t and norm(mc) in t:
                         ok_none = True
-        chk.require(ok_none, "C15-L2", where, "a non-matching string raises ValueError", f"{fname} does not raise ValueError when the regex does not match", key=f"{fname}:nomatch")
+        if not ok_none:
+            # written differently (helper, early return ...): whether a non-match raises is decided by evaluation (C15-L8)
+            raise AnalysisError(f"{where}: the `if match is None: raise ValueError` idiom is not found in this form")
+        chk.ok("C15-L2", where, "a non-matching string raises ValueError")
     # translators that can fail with something else than ValueError must be wrapped
     sid = mod.func("decode_scene_id")
     uses_date = trans.get("date", ("", ""))[0] not in ("lookup", "passthrough")  # a parser: fails with a ValueError subclass of its own
@@ -343,8 +346,9 @@ def grammar_rules(chk, repo):
                 for h in n.handlers:
                     if h.type is not None and "ValueError" in norm(h.type) and isinstance(h.body[-1], ast.Raise) and "ValueError" in norm(h.body[-1].exc):
                         wrapped = any("translations" in norm(x) for st in n.body for x in ast.walk(st) if isinstance(x, ast.Subscript))
-        chk.require(wrapped, "C15-L2", f"{mod.relpath}:decode_scene_id", "date parser errors (ValueError subclass) are re-raised as ValueError naming the scene id",
-                    "decode_scene_id does not wrap translator failures in ValueError", key="decode_scene_id:wrap")
+        if not wrapped:
+            raise AnalysisError(f"{mod.relpath}:decode_scene_id: the try / except ValueError around the translators is not found in this form")
+        chk.ok("C15-L2", f"{mod.relpath}:decode_scene_id", "date parser errors (ValueError subclass) are re-raised as ValueError naming the scene id")
     # ---------------------------------------------------------------- L4 composition
     F = rx["fname_re"]
     for g, rname in COMPOSITION.items():
